@@ -99,14 +99,42 @@ theorem none_policy_keeps_validity (p : Params α) (hours : Hours α) (env : Env
   simp [adjForExtLat, applyPolicy, canAdj, hp, Policy.isNone, adjForInt, Gen.intExcluded, intFajrStep,
     intIshaStep, hF, hI]
 
--- non-vacuity: a polar-night day (φ = 80°, δ = −20°: cos φ cos δ > 0, Sun never reaches h₀) has no Shurooq
-example : ∃ φ δ : ℝ, 0 < Real.cos φ * Real.cos δ ∧ ¬ (-Real.cos (φ + δ) ≤ (1 : ℝ) / 2 ∧ (1 : ℝ) / 2 ≤ Real.cos (φ - δ)) := by
-  refine ⟨0, Real.pi / 2 - 1 / 4, ?_, ?_⟩
-  · rw [Real.cos_zero, one_mul, Real.cos_pi_div_two_sub]
-    exact Real.sin_pos_of_pos_of_lt_pi (by norm_num) (by linarith [Real.two_le_pi])
-  · intro ⟨_, h⟩
-    rw [zero_sub, Real.cos_neg, Real.cos_pi_div_two_sub] at h
-    have : Real.sin (1 / 4) < 1 / 4 := Real.sin_lt (by norm_num)
-    linarith
+/-- **the theorems above are about the entries `getHours` reports**: its Fajr, Isha and Asr are the
+    stand-alone functions applied to the configured Fajr/Isha angles and school, the place's
+    latitude, the requested date's declination and that day's Dhuhr, and its Shurooq and Maghrib
+    exist exactly when the rise/set hour angle does - a swapped argument at the call site would
+    break this theorem -/
+theorem getHours_wiring (p : Params α) (t : TopAstroDay α) (w : Weather α) :
+    (getHours p t w).fajr = (fajrIsha p.angFajr p.angIsha t.coords.lat t.cur.dec (shurDhuhrMagh t w).2.1).1 ∧
+    (getHours p t w).isha = (fajrIsha p.angFajr p.angIsha t.coords.lat t.cur.dec (shurDhuhrMagh t w).2.1).2 ∧
+    (getHours p t w).asr = getAsr p.asr t.coords.lat t.cur.dec (shurDhuhrMagh t w).2.1 ∧
+    (getHours p t w).dhuhr = some (shurDhuhrMagh t w).2.1 ∧
+    (getHours p t w).shur.isSome = (shurMaghM0Adj t.coords.lat t.cur.dec).isSome ∧
+    (getHours p t w).magh.isSome = (shurMaghM0Adj t.coords.lat t.cur.dec).isSome := by
+  refine ⟨rfl, rfl, rfl, rfl, ?_, ?_⟩ <;> simp only [getHours, shurDhuhrMagh] <;>
+    cases shurMaghM0Adj t.coords.lat t.cur.dec <;> rfl
+
+-- non-vacuity: a genuine polar-night day (latitude 80°, declination −20°): cos φ cos δ > 0 and the
+-- rise/set hour angle does not exist (the Sun never reaches h₀), so Shurooq and Maghrib are Invalid
+example : 0 < Real.cos (toRadians (80:ℝ)) * Real.cos (toRadians (-20:ℝ)) ∧ shurMaghM0Adj (80:ℝ) (-20) = none := by
+  have hp := Real.pi_pos
+  have hk : 0 < Real.cos (toRadians (80:ℝ)) * Real.cos (toRadians (-20:ℝ)) := by
+    apply mul_pos <;> apply Real.cos_pos_of_mem_Ioo <;> rw [toRadians_real] <;> constructor <;> nlinarith
+  refine ⟨hk, ?_⟩
+  have hb := (guard_iff_between (toRadians (80:ℝ)) (toRadians (-20:ℝ))
+    (Real.sin (toRadians (Gen.CENTER_OF_SUN_ANGLE : ℝ))) hk)
+  have hnot : ¬ (Real.sin (toRadians (Gen.CENTER_OF_SUN_ANGLE : ℝ)) ≤ Real.cos (toRadians (80:ℝ) - toRadians (-20:ℝ))) := by
+    rw [not_le, c_CENTER_OF_SUN_ANGLE]
+    have e1 : toRadians (80:ℝ) - toRadians (-20:ℝ) = Real.pi / 2 + 10 * (Real.pi / 180) := by
+      rw [toRadians_real, toRadians_real]; ring
+    have e2 : toRadians (-(83337 / 100000) : ℝ) = -(83337 / 100000 * (Real.pi / 180)) := by rw [toRadians_real]; ring
+    rw [e1, e2, Real.cos_add, Real.cos_pi_div_two, Real.sin_pi_div_two, Real.sin_neg]
+    simp only [zero_mul, one_mul, zero_sub, neg_lt_neg_iff]
+    apply Real.sin_lt_sin_of_lt_of_le_pi_div_two <;> nlinarith
+  unfold shurMaghM0Adj
+  simp only [sc_sin, sc_cos]
+  rw [if_neg]
+  intro hw
+  exact hnot (hb.mp hw).2
 
 end IPT.C06
